@@ -38,7 +38,7 @@ def extra(cases, verdicts):
 CLAIMED = True
 
 PROP = dict(
-    proof_modules=["VrpProofs.C06", "VrpProofs.C06Cap", "VrpProofs.C06CapVec", "VrpProofs.C06Complete"], model_modules=["VrpModel.Route", "VrpModel.C06"],
+    proof_modules=["VrpProofs.C06", "VrpProofs.C06Cap", "VrpProofs.C06CapVec", "VrpProofs.C06Complete", "VrpProofs.C06Multi"], model_modules=["VrpModel.Route", "VrpModel.C06", "VrpModel.C06Multi"],
     drv="drv_c06", bin="c06", compare=compare, nontrivial=nontrivial, extra_evidence=extra,
     rule="tours of 0..6 activities feasible by construction (windows placed around the simulated arrival with slack 0..1000, "
          "capacity = max load + 0..5), open and closed, static/dynamic/replacement/mixed demand in 1-2 dimensions, candidate job with "
@@ -47,7 +47,9 @@ PROP = dict(
     modelled="TransportConstraint::evaluate_job/evaluate_activity, update_schedules/update_states (latest arrival), has_demand_violation + "
              "recalculate_states (no reload markers), eval_job_insertion_in_route/eval_single/analyze_insertion_in_route(_leg) with "
              "LegSelection::Exhaustive + BestResultSelector, route/activity cost layers (unassigned, tours, distance or cost)",
-    traced="eval_multi (multi-task jobs): the implementation's placements are checked by the simulation (soundness only, as the property states)",
+    traced="eval_multi (multi-task jobs): the greedy search itself is not modelled; its result is checked twice - the placements pass the "
+           "simulation (soundness only, as the property states) and every step of the sequence is accepted by the model's activity-level "
+           "evaluation on the tour that already holds the previous steps (acceptedSeq), for which soundness is a theorem (acceptedSeq_sound)",
     out_of_model="LegSelection::Stochastic sampling, time-dependent routing, reload intervals (C01 campaign), f64 rounding (integer data)",
     assumptions=["harness goal: features [min-unassigned, min-tours, transport(time constrained), capacity] in this order",
                  "capacity soundness is proved for any number of dimensions under WF n (all load vectors of a case have the same length, as "
@@ -64,7 +66,9 @@ META = dict(
          "through (scanLegs_finds, evalRoute_of_feasible_time, evalJob_any_complete_time'), and for jobs WITH demand in any number of dimensions "
          "(C06Complete: hdv_none_of_components, cap_complete_vec, cap_exact_vec, static_clause_mono - the only stop verdict of the capacity test is monotone in the "
          "leg, so no leg before an admissible one stops the scan -, evalActivity_ok_of_feasible, route_precheck_vec, evalRoute_of_feasible, "
-         "scanLegs_finds_upto, evalJob_any_complete; evalJob_any_complete_spec: existsFeasible => Any succeeds); capacity: the test on cached max-past/max-future/current implies the full load profile stays within "
+         "scanLegs_finds_upto, evalJob_any_complete; evalJob_any_complete_spec: existsFeasible => Any succeeds); sequences of insertions, each evaluated on the tour that already holds the previous "
+         "ones (how eval_multi places pickup-and-delivery jobs): evalActivity_sound, acceptedSeq_sound, acceptedSeq_sound_hyps, pickup_delivery_sound "
+         "(C06Multi: every accepted sequence ends in a tour the simulation finds feasible; an `example` shows the index bound i <= tour length is needed); capacity: the test on cached max-past/max-future/current implies the full load profile stays within "
          "capacity for every demand shape, in every dimension (cap_sound1 for one dimension; cap_sound_vec for the executable vector model with any "
          "number of dimensions; cap_complete1 / cap_exact1: on a tour with non-negative loads and for demands without a static pickup next to a "
          "larger dynamic delivery the O(1) test refuses nothing the profile admits, the caches being attained - runMax1_attained, "
@@ -76,7 +80,7 @@ META = dict(
     note=COMMON_NOTE + " Whole-evaluator completeness for single-task jobs is a theorem (evalJob_any_complete, evalJob_any_complete_spec) under input "
          "hypotheses only: non-negative travel times and durations, a feasible base tour with non-negative loads, and in every dimension no "
          "static pickup next to a larger dynamic delivery (the shapes the readers produce; `example`s show that both capacity hypotheses are "
-         "needed - without them the real O(1) test is incomplete by design). Partial: multi-task jobs (eval_multi is a greedy sequential search: "
-         "soundness only, by the oracle, as the property states), reload intervals and stochastic leg sampling are outside the model.",
+         "needed - without them the real O(1) test is incomplete by design). Partial: for multi-task jobs the greedy search of eval_multi is traced, not modelled (soundness of any accepted "
+         "sequence is the theorem acceptedSeq_sound, applied to the implementation's own sequences by the oracle model_accepts_every_step), reload intervals and stochastic leg sampling are outside the model.",
     technique="Lean 4 induction over tour suffixes (omega) + exact differential correspondence with the real evaluator + brute-force simulation oracle",
 )
